@@ -166,12 +166,17 @@ class EmitT:
         if isinstance(t, FloatT) and v.kind == 'float': return Emit.fconst(s, t, v.val)
         return s.val(v)
 
-    def proto(s, name, ret, args):
-        a = ', '.join('%s %s' % (s.cty(t), lname(an)) for t, an in args) or 'void'
-        return '%s %s(%s)' % (s.cty(ret), gname(name), a)
+    def proto(s, name, ret, args, sx=(set(), False)):
+        # parameters / results carrying `signext` get the signed C type so that native callers follow the real ABI
+        def pty(k, t): return t.sc() if k in sx[0] and isinstance(t, IntT) and t.bits in (8, 16, 32) else s.cty(t)
+        a = ', '.join('%s %s%s' % (pty(k, t), lname(an), '__sx' if k in sx[0] else '') for k, (t, an) in enumerate(args)) or 'void'
+        rt = ret.sc() if sx[1] and isinstance(ret, IntT) and ret.bits in (8, 16, 32) else s.cty(ret)
+        return '%s %s(%s)' % (rt, gname(name), a)
 
     def func(s, name, f):
-        o = [s.proto(name, f['ret'], f['args']) + ' {']
+        o = [s.proto(name, f['ret'], f['args'], f.get('sx', (set(), False))) + ' {']
+        for k in sorted(f.get('sx', (set(), False))[0]):
+            t, an = f['args'][k]; o.append('  %s %s = (%s)%s__sx;' % (s.cty(t), lname(an), s.cty(t), lname(an)))
         decls = {}; phis = []
         for b in f['blocks']:
             for i in b['insts']:
@@ -296,8 +301,8 @@ def translate_typed(text, opts):
     for name, d in m.decls.items():
         n = name[1:]
         if n.startswith('llvm.') or n in LIBCT or n in ('memcpy', 'memset', 'memmove', '__assert_fail'): continue
-        protos.append(e.proto(name, d['ret'], [(t, '%a' + str(k)) for k, (t, _) in enumerate(d['args'])]) + ';')
-    for name, f in m.funcs.items(): protos.append(e.proto(name, f['ret'], f['args']) + ';')
+        protos.append(e.proto(name, d['ret'], [(t, '%a' + str(k)) for k, (t, _) in enumerate(d['args'])], d.get('sx', (set(), False))) + ';')
+    for name, f in m.funcs.items(): protos.append(e.proto(name, f['ret'], f['args'], f.get('sx', (set(), False))) + ';')
     for name, g in m.globals.items():
         const = 'const ' if g['const'] and g['init'] is not None else ''
         gdefs.append('extern %s%s %s;' % (const, e.cty(g['ty']), gname(name)))
